@@ -384,8 +384,10 @@ def main():
     seed = int(os.environ.get('VERIF_SEED', '1'))
     prop = dict(PROPS[pid], id=pid)
     t0 = time.time()
-    os.makedirs(os.path.join(VERIF, 'evidence'), exist_ok=True)
-    evp = os.path.join(VERIF, 'evidence', pid + '.json')
+    # evidence describes /repo; a run against a scratch copy (VERIF_REPO, used to try seeded changes) keeps its record under work/
+    evdir = os.path.join(VERIF, 'evidence') if os.path.realpath(REPO) == '/repo' else os.path.join(WORK, 'evidence-scratch')
+    os.makedirs(evdir, exist_ok=True)
+    evp = os.path.join(evdir, pid + '.json')
 
     if replay:
         rp = json.load(open(replay))
